@@ -45,6 +45,7 @@ Notation scored_resolution := (scored_resolution cand ceqb).
 Notation random_resolution := (random_resolution cand).
 Notation resolution := (resolution cand ceqb).
 Notation stv_tie := (stv_tie cand ceqb).
+Notation big := (big cand).
 
 (* a deterministic transfer leaves the random source alone *)
 Lemma transfers_quiet : forall k (p : profile) d t ws (s s' : mstate) mvs,
@@ -123,6 +124,71 @@ Proof.
     split; [reflexivity|]. split; [exact Hperm|].
     split; [eapply Permutation_NoDup; [apply Permutation_sym; exact Hperm|exact Hnd]|].
     split; [exact HxElim|exact HxEl].
+Qed.
+
+(* ---------- observation: a first_place tiebreak cannot separate an STV election tie ---------- *)
+
+(* candidates tied on the first-place votes of q: the first_place tiebreak on q draws one
+   permutation of the whole set — it is the random tiebreak *)
+Theorem fpv_tiebreak_on_tied : forall (q : profile) g tt (sa s1 : mstate) (d : scores) k,
+  first_place_votes q = inl d -> NoDup (map fst d) -> NoDup g -> (2 <= length g)%nat ->
+  incl g (map fst d) -> tied_at d g k ->
+  tiebreak_set g (Some q) TBFirstPlace sa = inl (tt, s1) ->
+  random_resolution g tt sa s1.
+Proof.
+  intros q g tt sa s1 d k Hd Hndk Hnd Hlen Hincl Htied H.
+  assert (Hgne : g <> []) by (intros E; rewrite E in Hlen; cbn in Hlen; lia).
+  destruct (c10_scored_trace_proof cand ceqb ceqb_spec g q TBFirstPlace d sa s1 tt
+              (or_introl (conj eq_refl Hd)) H) as [ls [Hscr [_ [HF Htt]]]].
+  destruct (c10_scored_groups_proof cand ceqb ceqb_spec g d Hndk Hnd Hgne Hincl)
+    as [Hperm [Hne [_ Hord]]].
+  cbv zeta in Hscr, HF, Htt, Hperm, Hne, Hord.
+  set (r := score_to_ranking cand (filter (fun x => memb cand ceqb (fst x) g) d) true) in *.
+  assert (Hin : forall g0 c, In g0 r -> In c g0 -> In c g).
+  { intros g0 c Hg0 Hc. eapply Permutation_in; [exact Hperm|]. unfold Core.flat.
+    apply in_concat. exists g0. split; assumption. }
+  destruct r as [|g1 [|g2 r']] eqn:Er.
+  - exfalso. apply Hgne. apply Permutation_nil. exact Hperm.
+  - unfold Core.flat in Hperm. cbn [concat] in Hperm. rewrite app_nil_r in Hperm.
+    assert (Hbig : big g1 = true).
+    { unfold TieSpec.big. apply Nat.ltb_lt. rewrite (Permutation_length Hperm). lia. }
+    cbn [filter] in HF. rewrite Hbig in HF.
+    inversion HF as [|l sg ls' sgs' [Hpl Hndl] HF']; subst. inversion HF'; subst.
+    exists l. cbn [map app] in Hscr. split; [exact Hscr|].
+    split; [cbn [TieSpec.rebuild]; rewrite Hbig; cbn [TieSpec.rebuild]; apply app_nil_r|].
+    split; [eapply Permutation_trans; eassumption|exact Hndl].
+  - exfalso.
+    assert (H1 : g1 <> []) by (apply Hne; left; reflexivity).
+    assert (H2 : g2 <> []) by (apply Hne; right; left; reflexivity).
+    destruct g1 as [|c1 g1']; [contradiction H1; reflexivity|].
+    destruct g2 as [|c2 g2']; [contradiction H2; reflexivity|].
+    assert (Hc1 : In c1 g) by (apply (Hin (c1 :: g1')); [left; reflexivity|left; reflexivity]).
+    assert (Hc2 : In c2 g) by (apply (Hin (c2 :: g2')); [right; left; reflexivity|left; reflexivity]).
+    destruct (Htied c1 Hc1) as [q1 [Hq1 Hk1]]. destruct (Htied c2 Hc2) as [q2 [Hq2 Hk2]].
+    pose proof (Hord [] (c1 :: g1') [] (c2 :: g2') r' c1 c2 q1 q2 eq_refl
+                  (or_introl eq_refl) (or_introl eq_refl) Hq1 Hq2) as Hlt.
+    lra.
+Qed.
+
+(* hence in a one-by-one election round configured with tiebreak = first_place the recorded order
+   is one random permutation of the tied set *)
+Theorem first_place_election_tie : forall cfg t (p0 p : profile) prev n (s s' : mstate) np st g tt,
+  step_ctx p0 p prev -> (s_transfer cfg = TRandom -> script_ok s) ->
+  stv_step cfg t p0 n p prev s = inl ((np, st), s') ->
+  In (g, tt) (tiebreaks st) ->
+  (exists c, reaches cand ceqb t p c) -> s_tiebreak cfg = Some TBFirstPlace ->
+  exists s1, tiebreak_set g (Some p) TBFirstPlace s = inl (tt, s1) /\ random_resolution g tt s s1.
+Proof.
+  intros cfg t p0 p prev n s s' np st g tt Hctx Hscr Hstep Hin Hsome Hk.
+  destruct (step_tie cfg t p0 p prev n s s' np st g tt Hctx Hscr Hstep Hin)
+    as (_ & Hlen & Hnd & Hincl & _ & k & Htied & _ & Hcase).
+  destruct Hcase as [(post & kind & s1 & l & _ & Hk' & _ & _ & _ & Htie & _)|(rest & x & l' & Hnone & _)].
+  - rewrite Hk in Hk'. injection Hk' as <-. exists s1. split; [exact Htie|].
+    apply (fpv_tiebreak_on_tied p g tt s s1 (escores prev) k
+             (ctx_fpv cand ceqb p0 p prev Hctx) (ctx_nd_keys cand ceqb p0 p prev Hctx) Hnd Hlen);
+      [|exact Htied|exact Htie].
+    rewrite (ctx_keys cand ceqb p0 p prev Hctx). exact Hincl.
+  - exfalso. destruct Hsome as (c & Hc & Hct). apply (Qlt_not_le _ _ (Hnone c Hc)). exact Hct.
 Qed.
 
 (* ---------- the run ---------- *)
